@@ -44,13 +44,13 @@ func TestVerifC04(t *testing.T) {
 		// epoch plan: for each epoch a list of path triggers
 		type epoch struct {
 			flipIf int
-			paths  []int // 0 solicited 1 periodic(wait for tick) 2 peer RA 3 scrape 4 api
+			paths  []int // 0 solicited 1 periodic(wait for tick) 2 peer RA 3 scrape 4 api 5 consistent peer RA
 		}
 		var plan []epoch
 		for e := 0; e <= nFlips; e++ {
 			ep := epoch{flipIf: rr.Intn(nIf)}
 			for k, m := 0, 1+rr.Intn(5); k < m; k++ {
-				ep.paths = append(ep.paths, rr.Intn(5))
+				ep.paths = append(ep.paths, rr.Intn(6))
 			}
 			plan = append(plan, ep)
 		}
@@ -179,6 +179,24 @@ func TestVerifC04(t *testing.T) {
 						} else {
 							check(k, "consistency-check", model.FromNDP(hooks[k][before]))
 						}
+					case 5: // a peer RA that is consistent with ours: our RA is generated
+						// for the comparison all the same (nothing is reported about the
+						// peer, so the log line is the only trace of that generation)
+						own, _, err := ifis[k].RouterAdvertisement(true)
+						if err != nil {
+							break
+						}
+						peer := *own
+						peer.Options = nil
+						h.tr.Add(vfake.Event{Kind: "peer_consistent", If: ifis[k].Name})
+						before := len(hooks[k])
+						h.deliver(vfake.In{Msg: &peer, Hop: 255, From: netip.MustParseAddr("fe80::98")})
+						time.Sleep(time.Millisecond)
+						h0.settle()
+						if len(hooks[k]) != before {
+							viol, violDet = "a peer RA with our own header fields and no options was reported as inconsistent", nil
+						}
+						gens = append(gens, gen{ifis[k].Name, h0.tr.Now(), "consistency-check-consistent", 0, cur[k], nil})
 					case 3: // metrics scrape
 						h0.settle()
 						all, err := prom.gather()
@@ -292,6 +310,9 @@ func TestVerifC04(t *testing.T) {
 						if strings.HasPrefix(e.Msg, name+": ") && strings.Contains(strings.ToLower(e.Msg), "forwarding") {
 							logs++
 						}
+					case e.Kind == "peer_consistent" && e.If == name:
+						builds++
+						logBuilds++
 					case e.Kind == "hook_inconsistent" && e.If == name:
 						builds++
 						logBuilds++
